@@ -625,8 +625,9 @@ def b2c (b : List UInt8) : List Char := b.map fun x => Char.ofNat x.toNat
 
 /-- esl-alimask  <msafile> <maskfile> | -t <msafile> <coords> | -g <msafile> | --rf-is-mask <msafile>  (not -p, not --small) -/
 def runAlimaskFull (argv : List String) (files : String → Option (List Char)) : Option (String × List (String × List Char)) := do
-  let p ← parseArgs ["-t", "-g", "--rf-is-mask", "--t-rf", "--t-rmins", "--keepins", "-q", "--dna", "--rna", "--amino"]
-    ["--gapthresh", "--informat", "--outformat", "-o", "--fmask-rf", "--fmask-all", "--gmask-rf", "--gmask-all"] argv {}
+  let p ← parseArgs ["-t", "-g", "-p", "--pallgapok", "--rf-is-mask", "--t-rf", "--t-rmins", "--keepins", "-q", "--dna", "--rna", "--amino"]
+    ["--gapthresh", "--informat", "--outformat", "-o", "--fmask-rf", "--fmask-all", "--gmask-rf", "--gmask-all",
+     "--pfract", "--pthresh", "--pavg", "--ppcons", "--pmask-rf", "--pmask-all"] argv {}
   let abc ← tabcOf p
   let infmt ← p.val? "--informat"
   let outfmt := (p.val? "--outformat").getD "stockholm"
@@ -634,27 +635,41 @@ def runAlimaskFull (argv : List String) (files : String → Option (List Char)) 
   if p.has "-q" && (p.val? "-o").isNone then none
   if (p.has "--t-rf" || p.has "--t-rmins") && !p.has "-t" then none
   if ((p.val? "--gapthresh").isSome || (p.val? "--gmask-rf").isSome || (p.val? "--gmask-all").isSome) && !p.has "-g" then none
-  if p.has "-t" && (p.has "-g" || p.has "--rf-is-mask") then none
-  if p.has "--rf-is-mask" && (p.has "-g" || p.has "--keepins") then none
+  if p.has "-t" && (p.has "-g" || p.has "-p" || p.has "--rf-is-mask") then none
+  if p.has "--rf-is-mask" && (p.has "-g" || p.has "-p" || p.has "--keepins") then none
+  let pOpts := ["--pfract", "--pthresh", "--pavg", "--ppcons", "--pmask-rf", "--pmask-all"]
+  if (pOpts.any (fun k => (p.val? k).isSome) || p.has "--pallgapok") && !p.has "-p" then none
+  if (p.val? "--pavg").isSome && ((p.val? "--pfract").isSome || (p.val? "--pthresh").isSome) then none
+  if (p.val? "--ppcons").isSome && (p.has "--keepins" || (p.val? "--pavg").isSome || (p.val? "--pfract").isSome || (p.val? "--pthresh").isSome) then none
+  let unit (k : String) (dflt : Float) : Option Float := match p.val? k with
+    | some v => (parseFloatS v).bind fun x => if x ≤ 1.0 then some x else none
+    | none => some dflt
+  let ppCfg : Option Ali.PPCfg ← if p.has "-p" then do
+      let pavg ← match p.val? "--pavg" with | some _ => (unit "--pavg" 0.0).map some | none => some none
+      let ppc ← match p.val? "--ppcons" with | some _ => (unit "--ppcons" 0.0).map some | none => some none
+      pure (some { pthresh := ← unit "--pthresh" 0.95, pfract := ← unit "--pfract" 0.95, pavg := pavg, ppcons := ppc, allgapok := p.has "--pallgapok" : Ali.PPCfg })
+    else pure none
   let src ← files (← p.pos.head?)
   let mode : Ali.MaskMode ← match p.pos with
     | [_] =>
       if p.has "-t" then none
       else if p.has "--rf-is-mask" then some .rfIsMask
+      else if p.has "-p" && !p.has "-g" then some .postprob
       else if p.has "-g" then
         (match p.val? "--gapthresh" with
          | some v => (parseFloatS v).bind fun x => if x ≤ 1.0 then some (Ali.MaskMode.gapfreq x.toFloat32) else none
          | none => some (.gapfreq (0.5 : Float).toFloat32))
       else none
     | [_, a2] =>
-      if p.has "-g" || p.has "--rf-is-mask" then none
+      if p.has "-g" || p.has "-p" || p.has "--rf-is-mask" then none
       else if p.has "-t" then (Ali.parseCoords (c2b a2.toList)).map fun (st, en) => .truncate st en (p.has "--t-rf") (p.has "--t-rmins")
       else (Ali.readMaskFile (c2b (← files a2))).map .maskfile
     | _ => none
   let o : Ali.AlimaskOpts :=
     { mode := mode, abc := abc, keepins := p.has "--keepins", outfmt := outfmt, verbose := (p.val? "-o").isSome && !p.has "-q",
       ofile := p.val? "-o", fmaskRf := p.val? "--fmask-rf", fmaskAll := p.val? "--fmask-all",
-      gmaskRf := p.val? "--gmask-rf", gmaskAll := p.val? "--gmask-all" }
+      gmaskRf := p.val? "--gmask-rf", gmaskAll := p.val? "--gmask-all",
+      pp := ppCfg, pmaskRf := p.val? "--pmask-rf", pmaskAll := p.val? "--pmask-all" }
   let (out, written) ← Ali.alimask o infmt (c2b src)
   some (b2s out, written.map fun (f, b) => (f, b2c b))
 
